@@ -568,6 +568,12 @@ func (q *checker) bcheckAssignment(lhs *a.Expr, op t.ID, rhs *a.Expr) error {
 		} else if lhs.MType().IsNumType() && rhs.Mentions(lhs) {
 			// No-op. After "x = x + 1", "x == x + 1" does not hold.
 
+		} else if lhs.MType().IsNumType() && (lhs.Operator() == a.ExprOperatorIndex) &&
+			(mentionsElementOf(lhs.RHS().AsExpr(), containerRoot(lhs)) ||
+				mentionsElementOf(rhs, containerRoot(lhs))) {
+			// No-op. After "x[x[0]] = 1" or "x[i] = x[j] + 1", the index or the
+			// rhs may read the very element that was just stored to.
+
 		} else if lhs.MType().IsNumType() {
 			q.facts.appendBinaryOpFact(t.IDXBinaryEqEq, lhs, rhs)
 
